@@ -14,12 +14,13 @@ COMMON_NOTE = ("Trusted: Lean kernel + propext/Classical.choice/Quot.sound; the 
 
 PROPS = {
     "C05": dict(
-        streams=[dict(cmd="C05")],
+        streams=[dict(cmd="C05"), dict(cmd="C05P")],
         technique="Lean 4 theorems (potential-function invariant of the token bucket, induction over call histories) + differential correspondence on a virtual clock",
-        level_text="The token-bucket law is proved in Lean for every non-decreasing call history, every state and every window; the model's allow/skip "
-                   "verdicts are compared with the real limiter call by call on generated gap sequences for all rates 1..=255.",
+        level_text="The token-bucket law (window bound 20 + R*T + 1 literally, the same law for the position gate, liveness, and the staleness bound of the "
+                   "gate/limiter pipeline) is proved in Lean for every non-decreasing call history, every bucket state and every window; the model's "
+                   "tick/paint verdicts are compared with the real limiters call by call on generated gap sequences for all rates 1..=255.",
         level_note=COMMON_NOTE + "Time is the virtual clock of verif-hooks.",
-        claimed=False),
+        ),
     "C06": dict(
         streams=[dict(cmd="C06", oracle_only=True)],
         technique="Lean 4 theorems (silence of hidden targets, relational induction: logical state independent of the target) + twin-run correspondence",
